@@ -146,10 +146,12 @@ elif mode == 'fds':
         bad = put('bad.csv', b'k1,x\n\xff\xfe,y\n')
         badjoin = put('bj.csv', b'\xffk1,J1\n')
         rfc = put('rfc.csv', b'a,"b"x\n')
+        rfcjoin = put('rj.csv', b'k1,"J"x\n')
+        latebadjoin = put('lbj.csv', b'k1,J1\n' * 3000 + b'\xffk2,J2\n')
         for name, query, inp, outp, pol in arg:
             inp_path = {'good': good, 'bad': bad, 'missing': os.path.join(d, 'nope.csv'), 'rfc': rfc}[inp]
             out_path = os.path.join(d, 'out_%d.csv' % len(out)) if outp == 'file' else os.path.join(d, 'nodir', 'x.csv')
-            query = query.replace('JOINFILE', joinf).replace('BADJOIN', badjoin).replace('NOJOIN', os.path.join(d, 'nojoin.csv'))
+            query = query.replace('JOINFILE', joinf).replace('LATEBADJOIN', latebadjoin).replace('BADJOIN', badjoin).replace('RFCJOIN', rfcjoin).replace('NOJOIN', os.path.join(d, 'nojoin.csv'))
             before = sorted(os.listdir('/proc/self/fd'))
             warnings = []
             try:
@@ -203,6 +205,42 @@ elif mode == 'fds-pipe':
             out.append({'name': name, 'outcome': outcome, 'leaked': leaked})
     finally:
         sys.stdout = real_stdout
+        shutil.rmtree(d, ignore_errors=True)
+elif mode == 'fds-fifo':
+    # the result goes to an OUTPUT PATH that is a pipe (a FIFO; /dev/stdout and process substitution behave alike) whose reader opens it and goes away at once:
+    # small results meet the broken pipe when the writer CLOSES the file (D29), large ones inside the main loop
+    import tempfile, shutil, threading
+    d = tempfile.mkdtemp(prefix='rbqlverif_fifo_')
+    try:
+        jp = os.path.join(d, 'j.csv')
+        with open(jp, 'wb') as f: f.write(b'0,J0\n1,J1\n')
+        for name, query, nrows in arg:
+            inp = os.path.join(d, 'in.csv')
+            with open(inp, 'wb') as f:
+                for i in range(nrows): f.write(('%d,name%d,%d\n' % (i, i, i % 3)).encode())
+            fifo = os.path.join(d, 'out_%d.fifo' % len(out))
+            os.mkfifo(fifo)
+            def reader(p=fifo):
+                fh = open(p, 'rb'); fh.close()
+            def fdset():
+                m = set()
+                for n in os.listdir('/proc/self/fd'):
+                    try: tgt = os.readlink('/proc/self/fd/' + n)
+                    except OSError: continue
+                    if '/proc/' in tgt and tgt.endswith('/fd'): continue          # the listing itself
+                    m.add((n, tgt))
+                return m
+            before = fdset()
+            t = threading.Thread(target=reader); t.start()
+            outcome = 'ok'
+            try:
+                rbql_csv.query_csv(query.replace('JOINFILE', jp), inp, ',', 'quoted', fifo, ',', 'quoted', 'utf-8', [], False)
+            except BaseException as e:
+                outcome = type(e).__name__ + ': ' + str(e)[:80]
+            t.join(10)
+            after = fdset()
+            out.append({'name': name, 'outcome': outcome, 'leaked': sorted(after - before)})
+    finally:
         shutil.rmtree(d, ignore_errors=True)
 print(json.dumps(out, default=repr))
 '''
@@ -381,7 +419,19 @@ FD_SCENARIOS = [
 ]
 
 
+# the error CLASS each scenario must end in (exception_to_error_info): whatever else fails while the query is wound up (closing files, collecting warnings)
+# must not replace the error that stopped it
+FD_EXPECTED = {'success': 'ok', 'success-join': 'ok', 'parsing-error': 'query parsing', 'syntax-error': 'syntax error', 'runtime-error': 'query execution', 'runtime-error-join': 'query execution',
+               'io-error-input': 'IO handling', 'io-error-join': 'IO handling', 'missing-join': 'IO handling', 'missing-input': 'FileNotFoundError', 'bad-output-dir': 'FileNotFoundError',
+               'rfc-quote-error': 'IO handling', 'join-key-error': 'query execution', 'strict-left-error': 'query execution',
+               'io-error-join-headers': 'IO handling', 'rfc-error-join': 'IO handling', 'io-error-join-late': 'IO handling'}
+FD_SCENARIOS_EXTRA = [('io-error-join-headers', 'select a1, b2 join BADJOIN on a1 == b1 with (header)', 'good', 'file', 'quoted'),
+                      ('rfc-error-join', 'select a1, b2 join RFCJOIN on a1 == b1', 'good', 'file', 'quoted_rfc'),
+                      ('io-error-join-late', 'select a1, b2 join LATEBADJOIN on a1 == b1', 'good', 'file', 'quoted')]
+
+
 def fd_check(res):
+    FD_SCENARIOS.extend(s for s in FD_SCENARIOS_EXTRA if s not in FD_SCENARIOS)
     outs = run_impl('fds', FD_SCENARIOS)
     res.evaluations += len(FD_SCENARIOS)
     # the model: which step fails in each scenario (index into allSteps), checked closed by theorem C15_fds_closed
@@ -389,9 +439,9 @@ def fd_check(res):
     for sc, o in zip(FD_SCENARIOS, outs):
         res.nontrivial.add(('fd', sc[0]))
         res.count('fd_outcome=%s' % o.get('outcome'))
-        if o.get('leaked') or o.get('lost') or not o.get('stdio_open', False) or 'harness_failure' in o:
+        if o.get('leaked') or o.get('lost') or not o.get('stdio_open', False) or 'harness_failure' in o or o.get('outcome') != FD_EXPECTED.get(sc[0], o.get('outcome')):
             nbad += 1
-            res.violations.append({'property': 'C15', 'impl': 'py', 'why': 'file descriptors differ before/after query_csv', 'scenario': sc, 'observed': o,
+            res.violations.append({'property': 'C15', 'impl': 'py', 'why': 'file descriptors differ before/after query_csv, or the query ended in another error class than the one that stopped it (expected %s)' % FD_EXPECTED.get(sc[0]), 'scenario': sc, 'observed': o,
                                    'case_key': 'C15|fd|' + sc[0]})
     res.count('fd_failures', nbad)
     res.sample({'fd_scenarios': [[s[0], o.get('outcome')] for s, o in zip(FD_SCENARIOS, outs)]})
@@ -413,6 +463,17 @@ def stdout_pipe_check(res):
             if nbad <= 3:
                 res.violations.append({'property': 'C15', 'impl': 'py', 'why': 'standard output is a pipe whose reader is gone: query_csv must return and leave no descriptor it opened behind',
                                        'scenario': sc, 'observed': o, 'case_key': 'C15|stdout-pipe|' + sc[0]})
+    fifo_scen = PIPE_SCENARIOS + [('join/%d' % rows, 'select a1, b2 left join JOINFILE on a1 == b1', rows) for rows in (0, 1, 20, 30000)]
+    fouts = run_impl('fds-fifo', fifo_scen)
+    res.evaluations += len(fifo_scen)
+    for sc, o in zip(fifo_scen, fouts):
+        res.nontrivial.add(('fifo', sc[0]))
+        if 'harness_failure' in o or o.get('outcome') != 'ok' or o.get('leaked'):
+            nbad += 1
+            if nbad <= 3:
+                res.violations.append({'property': 'C15', 'impl': 'py', 'why': 'the output path is a pipe whose reader is gone: query_csv must return (a broken pipe is not an error) and leave no descriptor behind',
+                                       'scenario': sc, 'observed': o, 'case_key': 'C15|fifo|' + sc[0]})
+    res.count('fifo_scenarios', len(fifo_scen))
     res.count('stdout_pipe_scenarios', len(PIPE_SCENARIOS))
     res.count('stdout_pipe_failures', nbad)
 
